@@ -35,8 +35,10 @@ def _cases(tier):
                     if qD is None or core.canon(qD) in seen or max(map(len, qD)) > 12:
                         continue
                     seen.add(core.canon(qD))
-                    for algo in ('single', 'two'):
-                        if tier == 'quick':
+                    for algo in ('single', 'two', 'two:0.01', 'two:0.2'):
+                        if ':' in algo:
+                            combos = [(1, 3), (2, 10)]
+                        elif tier == 'quick':
                             combos = [(1, 2), (2, 3), (3, 10), (2, 40)]
                         else:
                             combos = list(itertools.product((1, 2, 3), (2, 3, 10, 40)))
@@ -47,7 +49,8 @@ def _cases(tier):
 def run_dmrg(algo, H, psi, sweeps, it):
     if algo == 'single':
         return ptn.calculate_ground_state_local_singlesite(H, psi, sweeps, numiter_lanczos=it)
-    return ptn.calculate_ground_state_local_twosite(H, psi, sweeps, numiter_lanczos=it, tol_split=0)
+    tol = float(algo.split(':')[1]) if ':' in algo else 0
+    return ptn.calculate_ground_state_local_twosite(H, psi, sweeps, numiter_lanczos=it, tol_split=tol)
 
 
 def run_case(case, ctx):
@@ -71,9 +74,11 @@ def run_case(case, ctx):
     e_start = float(np.vdot(v0, Hd @ v0).real / n0 ** 2)
     ctx.cls(f'H:{name}')
     ctx.cls(f'algo:{algo}')
+    if ':' in algo and len(qD) - 1 < 2:
+        raise OutOfDomain()
     ctx.nontrivial = len(idx) >= 2
     prev_last = e_start
-    complete = prof == 'maximal' and palette.exactness_predicate(qd, qD, twosite=(algo == 'two'))
+    complete = prof == 'maximal' and palette.exactness_predicate(qd, qD, twosite=algo.startswith('two'))
     for inv in range(2):
         en = run_dmrg(algo, H, psi, sweeps, it)
         ctx.calls += 1
@@ -83,14 +88,16 @@ def run_case(case, ctx):
         if not ctx.check(en.shape == (sweeps,), 'one_energy_per_sweep', en.shape):
             return
         ctx.check(abs(np.linalg.norm(v) - 1) <= 1e-9, 'state_normalised', f'invocation {inv}: {np.linalg.norm(v)}')
-        e_fin = float(np.vdot(v, Hd @ v).real)
-        ctx.check(abs(e_fin - en[-1]) <= eps, 'last_energy_equals_expectation_value_of_state', f'invocation {inv}: {en[-1]} vs {e_fin}')
         ctx.check(bool(np.all(en >= E0 - eps)), 'energies_at_least_sector_ground_state', f'{en.tolist()} E0={E0}')
-        ctx.check(bool(np.all(en <= e_start + eps)), 'energies_at_most_start_energy', f'{en.tolist()} start={e_start}')
-        ctx.check(bool(np.all(np.diff(np.concatenate([[prev_last], en])) <= eps)), 'energies_non_increasing', f'prev={prev_last} en={en.tolist()}')
         ctx.check(ec.mpo_bytes(H) == hb, 'hamiltonian_not_modified')
         ctx.check(not dense.mps_masks_ok(psi.A, psi.qd, psi.qD), 'state_block_sparse_after')
-        if complete and it >= len(idx) + 1 and it >= 40:
+        if ':' not in algo:
+            # clauses stated for single-site and for two-site with zero split tolerance
+            e_fin = float(np.vdot(v, Hd @ v).real)
+            ctx.check(abs(e_fin - en[-1]) <= eps, 'last_energy_equals_expectation_value_of_state', f'invocation {inv}: {en[-1]} vs {e_fin}')
+            ctx.check(bool(np.all(en <= e_start + eps)), 'energies_at_most_start_energy', f'{en.tolist()} start={e_start}')
+            ctx.check(bool(np.all(np.diff(np.concatenate([[prev_last], en])) <= eps)), 'energies_non_increasing', f'prev={prev_last} en={en.tolist()}')
+        if complete and ':' not in algo and it >= len(idx) + 1 and it >= 40:
             ctx.cls('complete_manifold')
             ctx.check(abs(en[-1] - E0) <= 1e-8 * escale, 'exact_ground_state_energy_on_complete_manifold', f'{en[-1]} vs {E0}')
         prev_last = float(en[-1])
@@ -98,11 +105,53 @@ def run_case(case, ctx):
             return
 
 
+def _history_probe(w, ctx):
+    import copy
+    if w.name == 'linf3':
+        return
+    psi, H = w.psi, w.K
+    L = psi.nsites
+    if L < 2:
+        return
+    v0 = dense.mps_to_vector(psi.A)
+    n0 = float(np.linalg.norm(v0))
+    if n0 < 1e-12 or max(psi.bond_dims) > 32:
+        return
+    qd = [int(x) for x in psi.qd]
+    Hd = dense.mpo_to_matrix(H.A)
+    tot = int(np.asarray(psi.qD[-1])[0]) - int(np.asarray(psi.qD[0])[0])
+    idx = ec.sector_indices(qd, L, tot)
+    Hs = Hd[np.ix_(idx, idx)]
+    E0 = float(np.linalg.eigvalsh((Hs + Hs.conj().T) / 2)[0])
+    escale = 1 + float(np.max(np.abs(Hd)))
+    eps = 1e-9 * escale
+    e_start = float(np.vdot(v0, Hd @ v0).real / n0 ** 2)
+    for algo in ('single', 'two'):
+        p2 = copy.deepcopy(psi)
+        en = np.asarray(run_dmrg(algo, H, p2, 2, 3), dtype=float)
+        ctx.calls += 1
+        v = dense.mps_to_vector(p2.A)
+        ctx.check(abs(np.linalg.norm(v) - 1) <= 1e-9, f'history:{algo}:state_normalised', np.linalg.norm(v))
+        ctx.check(abs(float(np.vdot(v, Hd @ v).real) - en[-1]) <= eps, f'history:{algo}:last_energy_equals_expectation_value_of_state')
+        ctx.check(bool(np.all(en >= E0 - eps)), f'history:{algo}:energies_at_least_sector_ground_state', f'{en.tolist()} E0={E0}')
+        ctx.check(bool(np.all(en <= e_start + eps)), f'history:{algo}:energies_at_most_start_energy', f'{en.tolist()} start={e_start}')
+        ctx.check(bool(np.all(np.diff(en) <= eps)), f'history:{algo}:energies_non_increasing', en.tolist())
+
+
+def replay_case(space, case, seed):
+    if space.name == 'history_states':
+        from props import hist_probe
+        return hist_probe.replay(space, case, seed)
+    return space.run_one(case, seed).fails
+
+
 def sig(case):
     return f'{case[0]}:L={case[1]}:{case[3]}:{case[6]}'
 
 
 def spaces(tier, seed):
-    return [Space('dmrg', core.chunked(_cases(tier), 10), run_case=run_case, sig=sig,
+    from props import hist_probe
+    hist = hist_probe.probe_space('history_states', ['xxz3', 'ising3', 'fh2', 'bh3', 'mol4'], 2 if tier == 'quick' else 3, _history_probe)
+    return [hist, Space('dmrg', core.chunked(_cases(tier), 10), run_case=run_case, sig=sig,
                   bounds={'hamiltonians': ec.ALL_H, 'L': [2, 3, 4, 5], 'dense_dim<=': 256, 'profiles': PROFILES,
                           'sweeps_x_iterations': '(1,2),(2,3),(3,10),(2,40) quick / full product {1,2,3}x{2,3,10,40} thorough', 'invocations': 2})]
